@@ -153,6 +153,17 @@ def constkey(ctx):
             if _guarded_by_in(f, n, label):
                 r.ok("C03.1", ident, where)
                 continue
+            if isinstance(sl, ast.Subscript) and isinstance(sl.value, ast.Name):
+                try:
+                    inner = ce.lookup(sl.value.id, mod, lenv)
+                except NotConstant:
+                    inner = None
+                if isinstance(inner, dict):
+                    bad = sorted(v for v in inner.values() if v not in mapping)
+                    r.check("C03.1", not bad, ident, where,
+                            "values of %s used as keys of %s include %s, which is not a key" % (sl.value.id, label, bad),
+                            {"values": bad})
+                    continue
             unjudged.append("%s %s[%s]" % (where, label, keyrepr))
     r.extra["constkey_dynamic_unjudged"] = unjudged
 
@@ -163,16 +174,12 @@ def _guarded_by_in(f, sub, label) -> bool:
     key = norm(sub.slice)
     want = {"%s in %s" % (key, label)}
     cfg = CFG(f.node)
-    target = None
-    for nd in cfg.stmt_nodes():
-        if nd.ast is not None and any(x is sub for x in ast.walk(nd.ast)):
-            target = nd
-            break
-    if target is None:
+    targets = cfg.locate(sub)
+    if not targets:
         return False
-    return cfg.dominated_by(target, lambda n, lab: n.kind == "test" and (
+    return all(cfg.dominated_by(target, lambda n, lab: n.kind == "test" and (
         (lab is True and norm(n.ast) in want) or
-        (lab is False and norm(n.ast) == "%s not in %s" % (key, label))))
+        (lab is False and norm(n.ast) == "%s not in %s" % (key, label)))) for target in targets)
 
 
 def _all_constant_assignments(f, name, ce, mod):
@@ -365,7 +372,7 @@ def skeleton(ctx):
                     # foreign-content exemption: namespace store dominates the insert
                     if f.qual == "InForeignContentPhase.processStartTag":
                         cfg = CFG(f.node)
-                        tgt = [x for x in cfg.stmt_nodes() if any(c is call for c in node_calls(x))]
+                        tgt = cfg.locate(call)
                         stores = lambda x: x.kind == "stmt" and isinstance(x.ast, ast.Assign) and \
                             norm(x.ast.targets[0]) == "token['namespace']" and "namespace" in norm(x.ast.value) \
                             and "defaultNamespace" not in norm(x.ast.value)  # noqa: E731
@@ -416,10 +423,9 @@ def pop_guard(ctx):
                 cfg = cfg or CFG(f.node)
                 rep = []
                 for pc in pops:
-                    for nd in cfg.stmt_nodes():
-                        if nd.ast is not None and nd.kind != "loopiter" and any(x is pc for x in ast.walk(nd.ast)):
-                            if nd.id in cfg.reach_forward([nd], lambda n: False):
-                                rep.append(pc)
+                    for nd in cfg.locate(pc):
+                        if nd.id in cfg.reach_forward([nd], lambda n: False):
+                            rep.append(pc)
                 pops = rep
             if not pops:
                 continue
@@ -443,7 +449,7 @@ def pop_guard(ctx):
                 if idx in (0, -1) or not isinstance(idx, int):
                     continue
                 cfg = cfg or CFG(f.node)
-                tgt = [x for x in cfg.stmt_nodes() if x.ast is not None and any(y is n for y in ast.walk(x.ast))]
+                tgt = cfg.locate(n)
                 key = "%s::%s::openElements[%d]" % (f.module.rel, f.qual, idx)
                 where = "%s:%d" % (f.module.rel, n.lineno)
                 def depth_test(nd, lab):
